@@ -98,7 +98,9 @@ class RespRule(BaseRule):
                 s.ts["fault"] = e.val
                 outs.append(Out("raise", s, e))
             return outs
-        if t in ("getattr", "hasattr", "len", "str", "is_fp_closed", "self._init_decoder", "log.debug", "is_response_to_head"):
+        if t == "str":
+            return [ok(AV("unk", none=False, typ="builtins.str"))]
+        if t in ("getattr", "hasattr", "len", "is_fp_closed", "self._init_decoder", "log.debug", "is_response_to_head"):
             return [ok()]
         if t == "self.read" and self.model_read:
             # the body reader as a whole (its own release behaviour is C01-R6): attempted, then returns or fails
@@ -459,13 +461,31 @@ def run(ctx):
 
     rule = DrainRule()
     outs, it = run_function(m, fi, rule, inline=set(helper_closure(m, [fi])) - {fi.qual})
-    ctx.sites(R10, rule.gets, 1, "queue get in the drain loop")
+    if rule.gets == 0:
+        # the drain is written in a way the interpreter does not follow (e.g. iter(callable, sentinel) through filter()): decide
+        # what can be decided without it (DESIGN 13.2) - the queue parameter is read with get(), what is taken is closed,
+        # and queue.Empty is what ends it
+        src = ast.unparse(fi.node)
+        takes = any(isinstance(c, ast.Call) and isinstance(c.func, ast.Attribute) and c.func.attr in ("get", "get_nowait") and ast.unparse(c.func.value) == qparam for c in ast.walk(fi.node))
+        closes = any(isinstance(c, ast.Call) and isinstance(c.func, ast.Attribute) and c.func.attr == "close" for c in ast.walk(fi.node))
+        ends = any(isinstance(h, ast.ExceptHandler) and h.type is not None and "Empty" in ast.unparse(h.type) for h in ast.walk(fi.node))
+        ctx.ob(R10, fi.qual, "drain idiom not recognised: the queue is read with get(), taken items are closed, queue.Empty ends the drain (provenance only)", takes and closes and ends,
+               f"get on the queue: {takes}; close(): {closes}; except queue.Empty: {ends}", node=fi.node)
+        fi2 = m.method(f"{CP}.HTTPConnectionPool", "close")
+        drains2 = [c for c in astq.calls(fi2.node) if astq.call_text(c) == "_close_pool_connections"]
+        ctx.ob(R10, fi2.qual, "close() drains the queue", bool(drains2), node=fi2.node)
+        outs = []
+        rule.viol = []
+    else:
+        ctx.sites(R10, rule.gets, 1, "queue get in the drain loop")
     # an item known falsy (None placeholder) needs no close
     real = [(w, s) for w, s in rule.viol if s.facts.get("item", (None, None))[0] is not False]
     ctx.ob(R10, fi.qual, "each truthy item is closed before the next get", not real, real[0][0] if real else "", witness=real[0][1].witness() if real else None, node=fi.node)
     for o in outs:
         if o.kind == "raise" and o.val.val in (EXT_TOP.val, BASE_TOP.val):
             continue
+        if o.st.facts.get(f"p:{qparam}", (None, None))[1] is True and not o.st.ts.get("open_item"):
+            continue  # called without a queue (an already closed pool): nothing to drain
         ok = bool(o.st.ts.get("empty")) and o.kind in ("normal", "return")
         leftover = o.st.ts.get("open_item") and o.st.facts.get("item", (None, None))[0] is not False
         ctx.ob(R10, fi.qual, f"exit {outcome_name(o)} only after queue.Empty", ok and not leftover,
@@ -491,7 +511,7 @@ def run(ctx):
                 return [Out("normal", st, UNK)]
             return None
 
-    outs, it = run_function(m, fi, CloseRule(), f"{CN}.HTTPConnection")
+    outs, it = run_function(m, fi, CloseRule(), f"{CN}.HTTPConnection", inline=set(helper_closure(m, [fi])) - {fi.qual})
     ctx.sites(R11, len(outs), 2, "exits of HTTPConnection.close")
     for o in outs:
         seq = evs(o)
